@@ -86,7 +86,7 @@ func zeroModel(t *types.Named) (value, bool) {
 
 func isModelObject(v value) bool {
 	switch v.(type) {
-	case timeVal, *syncMap, *syncMutex, *syncWaitGroup, *syncOnce, *bytesBuffer, *regexpObj, *bufioReader, *stringsReader, reflectValue, *opaqueObj, *xtextPrinter, *replacerObj:
+	case timeVal, *syncMap, *syncMutex, *syncWaitGroup, *syncOnce, *bytesBuffer, *regexpObj, *bufioReader, *stringsReader, reflectValue, *opaqueObj, *xtextPrinter, *replacerObj, *osFile:
 		return true
 	}
 	return false
